@@ -3,7 +3,7 @@ import numpy as np
 
 from .. import graphs as G
 from .. import oracles as O
-from .common import call, close, layout_variants_agree, vector_forms_agree
+from .common import call, close, dtype_variants_agree, layout_variants_agree, vector_forms_agree
 
 PROP = 'C18'
 ANCHORS = ['mean_first_passage_time', 'diffusion_efficiency', 'pagerank_centrality', 'subgraph_centrality',
@@ -159,6 +159,9 @@ def run_spectral(case, bct, REC):
         if repeated:
             REC.note_nontrivial(PROP, 'spectral', X)
     REC.tag(PROP, 'class:' + cls[0])
+    if 3 <= n <= 8 and (case['ws'] % 5 == 0 or int(A.sum()) >= n * (n - 1) - 2):
+        # adjacency matrices are naturally bool / small-integer arrays; walk counts are not (K6, length 5: 521)
+        dtype_variants_agree(REC, PROP, 'findwalks', bct.findwalks, A)
     if 3 <= n <= 8 and case['ws'] % 7 == 0:
         Xr = G.weigh(A, 'real', case['ws'], True)
         for fn in ('subgraph_centrality', 'eigenvector_centrality_und', 'findwalks'):
